@@ -73,7 +73,16 @@ func r201(c *Ctx) {
 		_, missed := boolFacts(bare, okOf(prefixed))
 		c.ob(rule, "findEnv/bare-only-when-prefixed-absent", bare.Pos(), missed && dominates(prefixed, bare), true, "KAMAL_PROXY_<NAME> must win over <NAME>")
 		for _, ret := range normalReturns(findEnv) {
-			found, _ := constBool(retVal(ret, 1))
+			found, isConst := constBool(retVal(ret, 1))
+			if !isConst {
+				// `return os.LookupEnv(key)`: found exactly when the bare variable is present - fine on the branch where the
+				// prefixed one is absent
+				if e, isE := retVal(ret, 1).(*ssa.Extract); isE && e.Tuple == ssa.Value(bare) && e.Index == 1 {
+					_, m1 := boolFacts(ret, okOf(prefixed))
+					c.ob(rule, "findEnv/bare-result-only-when-prefixed-absent", ret.Pos(), m1, true, "")
+					continue
+				}
+			}
 			if !found {
 				_, m1 := boolFacts(ret, okOf(prefixed))
 				_, m2 := boolFacts(ret, okOf(bare))
